@@ -20,7 +20,7 @@ PROP = "C06"
 LEVEL = "other"
 S = Poly.sym
 
-BAD = ("branch-on-symbolic", "truth-of-array", "coerce-array-to-python", "symbolic-equality-in-container", "attr-assign-outside-init", "global-stmt", "astype")
+BAD = ("branch-on-symbolic", "truth-of-array", "coerce-array-to-python", "symbolic-equality-in-container", "attr-assign-outside-init", "global-stmt")
 # size-like symbols: static python ints under every transformation
 STATIC_SYMS = {"s:N", "s:M", "s:n", "s:kinj", "s:pi"}
 
@@ -48,7 +48,6 @@ def collect(ck, it, scenario, entry, at_default):
             "symbolic-equality-in-container": "Python == on a container holding a traced value",
             "attr-assign-outside-init": "attribute assignment outside __init__ (shared mutable state between batch members)",
             "global-stmt": "global / nonlocal statement on a traced path",
-            "astype": "astype on a traced path",
         }[ev["kind"]]
         key = f"{ev['fn']}#{ev['kind']}#{ev['src']}"
         ck.fail("trace-safety", key, f"{ev['file']}:{ev['line']}", f"[{scenario}] `{ev['src']}`: {what} (reached from {entry})")
